@@ -441,9 +441,11 @@ func TestC18(t *testing.T) {
 	}
 	// transport ignoring deadlines, small sample of the matrix
 	n0 := len(cases)
-	for i := 0; i < n0; i += 7 {
+	for i := 0; i < n0; i++ {
 		c := cases[i]
-		if c.Fault == "slow" {
+		// every slow-peer case (a late but complete answer is only possible when stream deadlines are
+		// not enforced), every 7th of the others
+		if c.Fault != "slow" && i%7 != 0 {
 			continue
 		}
 		c.Honour = false
